@@ -130,8 +130,9 @@ def literal_variant(rng, text):
     k = int(m.group(1))
     good = ["%d" % k, "0x%x" % k, "0X%X" % k, "0x%X" % k, "0b%s" % bin(k)[2:], "0B%s" % bin(k)[2:], "%d." % k, "%d.0e0" % k, "%d.0E+0" % k,
             "%de0" % k, "%dE-0" % k, "%d.00" % k, "0x0_%x" % k, "0B0_%s" % bin(k)[2:]]
+    good += ["0x0__%x" % k, "0b0__%s" % bin(k)[2:], "0__%d" % k if k else "0__0", "0__%d.0" % k if k else "0__0.0"]     # runs of separators
     if k >= 10:
-        good += ["%d_%d" % (k // 10, k % 10)]
+        good += ["%d_%d" % (k // 10, k % 10), "%d__%d" % (k // 10, k % 10), "%d___%d.0" % (k // 10, k % 10)]
     if k == 0:
         good += [".0", ".0e1", "0e5"]
     bad = ["0x", "0b", "0b2", "0xg", "%d_" % k, "%de" % k, "%d.e" % k, "0x_1", "1__", "%d..0" % k, "0B", "%dE+" % k]
@@ -157,7 +158,7 @@ def explore(ctx, rng, count):
             items.append((FR.soup(rng), [], "soup"))
         if rng.random() < 0.15:
             # declared constants with non-decimal values, used in expressions and as bounds
-            v = rng.choice(["0X1F", "0B11", "0x3", "3", "1_0", "2.5", "1E1", "0x1f", "0b1"])   # valid literals only: the value comes through the API
+            v = rng.choice(["0X1F", "0B11", "0x3", "3", "1_0", "2.5", "1E1", "0x1f", "0b1", "1__0", "0x1__F", "2__0.5"])   # valid literals only: the value comes through the API
             items.append((rng.choice(["out = a >= K9", "out = once[0,K9](a >= 1)", "out = always[K9,K9] (a > K9)"]), [("K9", v)], "const-value"))
     ms = []
     # model calls grouped by constants
